@@ -70,6 +70,19 @@ func buildView(c c11Case, dir string) (fsutil.FS, string, error) {
 		}
 		prefix = "s/"
 	}
+	if c.Under == "wrapped" {
+		// the filter stack sits INSIDE a composite of sub-roots: what Send sees outermost is not a filter
+		lower, err := fsutil.NewFilterFS(base, &fsutil.FilterOpt{})
+		if err != nil {
+			return nil, "", err
+		}
+		inner, err := fsutil.NewFilterFS(lower, &fsutil.FilterOpt{IncludePatterns: c.Include, ExcludePatterns: c.Exclude, FollowPaths: c.Follow})
+		if err != nil {
+			return nil, "", err
+		}
+		v, err := fsutil.SubDirFS([]fsutil.Dir{{Stat: &types.Stat{Path: "s", Mode: uint32(os.ModeDir | 0755)}, FS: inner}})
+		return v, "s/", err
+	}
 	pre := func(l []string) []string {
 		if prefix == "" || l == nil {
 			return l
@@ -130,7 +143,7 @@ func judgeC11(c c11Case) (string, string) {
 	}
 	// (3) walk/open agreement
 	pre := ""
-	if c.Under == "subdir" {
+	if c.Under == "subdir" || c.Under == "wrapped" {
 		pre = "s/"
 	}
 	for _, n := range c.Tree {
@@ -229,7 +242,7 @@ func pmClass(c c11Case, p string) bool {
 	return err1 == nil && err2 == nil && nk[p] != ck[p]
 }
 
-var c11Patterns = []string{"a", "ab", "a/x", "a/*", "*/x", "**/y", "c", "!a/x", "!ab", "*", "!a"}
+var c11Patterns = []string{"a", "ab", "a/x", "a/*", "*/x", "**/y", "c", "!a/x", "!ab", "*", "!a", "*/*"}
 
 func c11Tree(lab []int, withLink bool, kind fsmodel.Kind) fsmodel.Tree {
 	// "ab" next to "a": a directory name that is a string prefix of its sibling
@@ -266,7 +279,7 @@ func runC11(r *evid.Run) {
 	var cases []c11Case
 	for _, lab := range parts {
 		t := c11Tree(lab, false, fsmodel.File)
-		for _, under := range []string{"disk", "filter", "map", "subdir", "mem"} {
+		for _, under := range []string{"disk", "filter", "map", "subdir", "mem", "wrapped"} {
 			for _, in := range inc {
 				for _, ex := range exc {
 					if r.Tier != "thorough" && under != "disk" && under != "mem" && len(in)+len(ex) > 2 {
